@@ -1,5 +1,126 @@
-import Summer.Model.Run
-namespace Summer.Props.C02Solvers
-theorem placeholder : True := trivial
-end Summer.Props.C02Solvers
-#print axioms Summer.Props.C02Solvers.placeholder
+import Summer.Proofs.Solvers
+/-
+C02 (solver part): conservation along trajectories.
+
+If a linear functional `L` (e.g. the total population `sumL`, or any weighted sum `dot w`) annihilates
+the vector field, every row produced by `euler`, `rk4` and the adaptive Dormand–Prince `odeint` has the same
+`L`-value as the initial state: for any times, any step size, any tableau coefficients
+`alpha/beta/cSol/cError/cMid`, any step controller and any fuel.  The only tableau property used (by the
+dense output) is the column sums of the five fit rows (`FitColSums`), which hold for the generated rows.
+
+`α` is an arbitrary field (so in particular any ordered field).
+-/
+namespace Summer.Props.C02
+open Summer Summer.Solvers Summer.Spec.Solvers Summer.Proofs.Solvers
+
+variable {α : Type} [Field α]
+
+/-- `dot w` and `sumL` are linear on vectors of any fixed length `n` (w.r.t. the truncating `vadd`). -/
+theorem linear_functionals (n : Nat) (w : List α) : LinOn n (dot w) ∧ LinOn n (sumL : List α → α) :=
+  ⟨linOn_dot w n, linOn_sumL n⟩
+
+/-- Main theorem.  `L` linear on length-`n` vectors, `f` maps length-`n` states to length-`n` vectors
+with `L (f y t) = 0`.  Then every row of each of the three solvers has length `n` and `L row = L y0`. -/
+theorem linear_invariant {n : Nat} {L : List α → α} (hL : LinOn n L) (f : List α → α → List α)
+    (hf : ∀ y t, y.length = n → (f y t).length = n ∧ L (f y t) = 0)
+    (y0 : List α) (hy0 : y0.length = n) (times : List α) :
+    (∀ r ∈ euler f y0 times, r.length = n ∧ L r = L y0) ∧
+    (∀ r ∈ rk4 f y0 times, r.length = n ∧ L r = L y0) ∧
+    (∀ (tb : Tableau α), FitColSums tb.fitRows → ∀ (ctl : Control α) (fuel : Nat) (dt0 : α),
+      ∀ r ∈ odeint tb ctl f fuel dt0 y0 times, r.length = n ∧ L r = L y0) :=
+  ⟨euler_linear hL hf y0 hy0 times, rk4_linear hL hf y0 hy0 times,
+    fun tb hfit ctl fuel dt0 => odeint_linear hL tb hfit ctl hf fuel dt0 y0 hy0 times⟩
+
+/-- instance: weighted sums `dot w` -/
+theorem linear_invariant_dot (w : List α) (n : Nat) (f : List α → α → List α)
+    (hf : ∀ y t, y.length = n → (f y t).length = n ∧ dot w (f y t) = 0)
+    (y0 : List α) (hy0 : y0.length = n) (times : List α) :
+    (∀ r ∈ euler f y0 times, dot w r = dot w y0) ∧
+    (∀ r ∈ rk4 f y0 times, dot w r = dot w y0) ∧
+    (∀ (tb : Tableau α), FitColSums tb.fitRows → ∀ (ctl : Control α) (fuel : Nat) (dt0 : α),
+      ∀ r ∈ odeint tb ctl f fuel dt0 y0 times, dot w r = dot w y0) := by
+  obtain ⟨h1, h2, h3⟩ := linear_invariant (linOn_dot w n) f hf y0 hy0 times
+  exact ⟨fun r hr => (h1 r hr).2, fun r hr => (h2 r hr).2, fun tb hfit ctl fuel dt0 r hr => (h3 tb hfit ctl fuel dt0 r hr).2⟩
+
+/-- Closed population: if the compartment rates always sum to zero, every output row of each of the
+three solvers sums to the initial total (and has the right number of compartments). -/
+theorem closed_population (n : Nat) (f : List α → α → List α)
+    (hf : ∀ y t, y.length = n → (f y t).length = n ∧ sumL (f y t) = 0)
+    (y0 : List α) (hy0 : y0.length = n) (times : List α) :
+    (∀ r ∈ euler f y0 times, r.length = n ∧ sumL r = sumL y0) ∧
+    (∀ r ∈ rk4 f y0 times, r.length = n ∧ sumL r = sumL y0) ∧
+    (∀ (tb : Tableau α), FitColSums tb.fitRows → ∀ (ctl : Control α) (fuel : Nat) (dt0 : α),
+      ∀ r ∈ odeint tb ctl f fuel dt0 y0 times, r.length = n ∧ sumL r = sumL y0) :=
+  linear_invariant (linOn_sumL n) f hf y0 hy0 times
+
+/-- One Dormand–Prince step, for EVERY `dt` (accepted or not) and EVERY tableau: `L y1 = L y0`,
+`L f1 = 0`, the error estimate has `L err = 0`, and all 7 stages are annihilated by `L`. -/
+theorem rkStep_invariant {n : Nat} {L : List α → α} (hL : LinOn n L) (tb : Tableau α)
+    (f : List α → α → List α) (hf : ∀ y t, y.length = n → (f y t).length = n ∧ L (f y t) = 0)
+    (y0 f0 : List α) (hy0 : y0.length = n) (hf0 : f0.length = n ∧ L f0 = 0) (t0 dt : α) :
+    let r := rkStep tb f y0 f0 t0 dt
+    (r.1.length = n ∧ L r.1 = L y0) ∧ (r.2.1.length = n ∧ L r.2.1 = 0) ∧
+    (r.2.2.1.length = n ∧ L r.2.2.1 = 0) ∧ (∀ v ∈ r.2.2.2, v.length = n ∧ L v = 0) ∧ r.2.2.2.length = 7 :=
+  rkStep_linear hL tb hf y0 f0 hy0 hf0 t0 dt
+
+/-- Dense output of a step conserves `L` at EVERY `θ` (also outside `[0,1]`): needs only the column sums
+of the fit rows. -/
+theorem dense_invariant {n : Nat} {L : List α → α} (hL : LinOn n L) (tb : Tableau α)
+    (hfit : FitColSums tb.fitRows)
+    (f : List α → α → List α) (hf : ∀ y t, y.length = n → (f y t).length = n ∧ L (f y t) = 0)
+    (y0 f0 : List α) (hy0 : y0.length = n) (hf0 : f0.length = n ∧ L f0 = 0) (t0 dt θ : α) :
+    let r := rkStep tb f y0 f0 t0 dt
+    (polyval (interpFit tb y0 r.1 r.2.2.2 dt) θ).length = n ∧
+    L (polyval (interpFit tb y0 r.1 r.2.2.2 dt) θ) = L y0 := by
+  obtain ⟨⟨h1l, h1L⟩, _, _, hk, hklen⟩ := rkStep_linear hL tb hf y0 f0 hy0 hf0 t0 dt
+  exact interpFit_linear hL tb hfit y0 _ _ dt (L y0) hy0 h1l rfl h1L hk hklen θ
+
+/-- the column-sum hypothesis holds for the generated fit rows transported by any ring hom `ℚ →+* α`
+(and for `ℚ` itself with `id`, which is what the driver runs) -/
+theorem fitColSums_generated (φ : ℚ →+* α) : FitColSums (genTableau φ).fitRows := fitColSums_gen φ
+
+theorem fitColSums_generated_rat : FitColSums (genTableau (id : ℚ → ℚ)).fitRows := fitColSums_rat
+
+/-- hence, for the generated tableau, every controller, every fuel -/
+theorem closed_population_dopri (φ : ℚ →+* α) (n : Nat) (f : List α → α → List α)
+    (hf : ∀ y t, y.length = n → (f y t).length = n ∧ sumL (f y t) = 0)
+    (y0 : List α) (hy0 : y0.length = n) (ts : List α) (ctl : Control α) (fuel : Nat) (dt0 : α) :
+    ∀ r ∈ odeint (genTableau φ) ctl f fuel dt0 y0 ts, r.length = n ∧ sumL r = sumL y0 :=
+  (closed_population n f hf y0 hy0 ts).2.2 _ (fitColSums_gen φ) ctl fuel dt0
+
+/-! non-vacuity: `exField` is a nonlinear, time-dependent 3-compartment field on `ℚ` with `sumL = 0` -/
+example : ∀ y t, y.length = 3 → (exField y t).length = 3 ∧ sumL (exField y t) = 0 := exField_ok
+example : ∀ r ∈ rk4 exField [99, 1, 0] [0, 1/2, 1], r.length = 3 ∧ sumL r = 100 := by
+  have := (closed_population 3 exField exField_ok [99, 1, 0] rfl [0, 1/2, 1]).2.1
+  intro r hr; obtain ⟨h1, h2⟩ := this r hr; refine ⟨h1, h2.trans (by decide +kernel)⟩
+example : ∀ r ∈ odeint (genTableau id) exCtl exField 10 (1/4) [99, 1, 0] [0, 1/4, 1/2],
+    r.length = 3 ∧ sumL r = sumL [(99 : ℚ), 1, 0] :=
+  closed_population_dopri (RingHom.id ℚ) 3 exField exField_ok [99, 1, 0] rfl [0, 1/4, 1/2] exCtl 10 (1/4)
+-- the trajectory is not constant (the invariant is not trivially true)
+example : (euler exField [99, 1, 0] [0, 1/2, 1]).getD 2 [] = [38351313/400000, 1374687/400000, 137/200] := by
+  decide +kernel
+example : (odeint (genTableau id) exCtl exField 10 (1/4) [99, 1, 0] [0, 1/4]).map sumL = [100, 100] := by
+  decide +kernel
+-- a weighted invariant: `dot [1, 1, 0]` is conserved by a field moving mass between the first two entries only
+example : ∀ r ∈ euler (fun y (t : ℚ) => match y with | [a, b, _] => [-(t * a), t * a, b] | _ => y.map fun _ => 0)
+    [3, 4, 5] [0, 1, 2], dot [1, 1, 0] r = 7 := by
+  have := (linear_invariant_dot [1, 1, 0] 3
+    (fun y (t : ℚ) => match y with | [a, b, _] => [-(t * a), t * a, b] | _ => y.map fun _ => 0)
+    (by
+      intro y t hy
+      match y, hy with
+      | [a, b, _], _ => refine ⟨rfl, ?_⟩; simp [dot, vmul, sumL])
+    [3, 4, 5] rfl [0, 1, 2]).1
+  intro r hr; exact (this r hr).trans (by decide +kernel)
+
+end Summer.Props.C02
+
+#print axioms Summer.Props.C02.linear_functionals
+#print axioms Summer.Props.C02.linear_invariant
+#print axioms Summer.Props.C02.linear_invariant_dot
+#print axioms Summer.Props.C02.closed_population
+#print axioms Summer.Props.C02.rkStep_invariant
+#print axioms Summer.Props.C02.dense_invariant
+#print axioms Summer.Props.C02.fitColSums_generated
+#print axioms Summer.Props.C02.fitColSums_generated_rat
+#print axioms Summer.Props.C02.closed_population_dopri
